@@ -17,6 +17,7 @@ import Cachelito.Props.C04
 import Cachelito.Props.C06
 import Cachelito.Props.C05
 import Cachelito.Props.C07
+import Cachelito.Props.C08
 import Cachelito.Props.T17m
 import Cachelito.Props.T18
 import Cachelito.Props.T19
@@ -174,6 +175,23 @@ theorem global_insert_victim_oldest (A : F64 F) (c : GlobalCache K V F) (now r :
   have h := C07.limit_victim_is_oldest (T08.cfgOf c) (by simpa [T08.cfgOf] using hp) (T02.srcTlru A c.frequency_weight) now r
     (put k ⟨v, now, 0⟩ c.map) (erasePush k c.order) (InvMQ.put_erasePush hi k ⟨v, now, 0⟩) f hs
   simpa [Cachelito.insert, T08.cfgOf, stamp] using h
+
+/-! ## C08 on the translated victim scans (LFU evicts an entry with the fewest successful lookups) -/
+
+/-- **sync engines** (`utils.rs` `find_min_frequency_key`, used by the global and the thread-local cache): on a consistent
+    store, the key the translated scan returns is stored and no stored entry has fewer hits -/
+theorem utils_lfu_scan_min_hits (m : Store K V) (q : List K) (hi : InvMQ m q)
+    (hmax : ∀ k e, lookup k m = some e → e.hits < u64Max) {x : K}
+    (h : Utils.find_min_frequency_key m q = some x) : MinHits m x := by
+  rw [T02.find_min_frequency_key_eq (⟨.global, .lfu, none, none, none⟩ : Cfg) (T02.srcTlru T02.natTop none) 0 rfl m q hmax] at h
+  exact C08.lfu_victim_min_hits (cfg := ⟨.global, .lfu, none, none, none⟩) rfl hi h
+
+/-- **async engine** (`AsyncGlobalCache::find_min_frequency_key`) -/
+theorem async_lfu_scan_min_hits (c : AsyncCache K V F) (tl : Tlru F) (q : List K) (hp : c.policy = .lfu)
+    (hi : InvMQ c.cache q) (hmax : ∀ k e, lookup k c.cache = some e → e.hits < u64Max) {x : K}
+    (h : Async.find_min_frequency_key c q = some x) : MinHits c.cache x := by
+  rw [T06.find_min_frequency_key_eq c tl 0 hp q hmax] at h
+  exact C08.lfu_victim_min_hits (cfg := T06.cfgOf c) (by simpa [T06.cfgOf] using hp) hi h
 
 /-! ## C01 / C03 / C10 / C11 on the generated wrappers -/
 
